@@ -1,2 +1,123 @@
-(* C07 names proofs: placeholder *)
+(* C07 - addDetailUniqueName always finds a fresh name (pigeonhole), and what
+   assertThat / expectThat / assert_that do to the details of a test. *)
+From Coq Require Import String DecimalString DecimalNat FinFun.
 From TT Require Import Lib.Base Model.Assertions.
+Local Open Scope string_scope.
+
+(* ---------- strings ---------- *)
+Lemma append_inj_r (a b c : string) : a ++ b = a ++ c -> b = c.
+Proof. induction a as [|x a IH]; simpl; intro H; [exact H|]. injection H as H. apply IH. exact H. Qed.
+
+Lemma append_length (a b : string) : String.length (a ++ b) = (String.length a + String.length b)%nat.
+Proof. induction a as [|x a IH]; simpl; [reflexivity|]. rewrite IH. reflexivity. Qed.
+
+Lemma mem_str_in s l : mem_str s l = true <-> In s l.
+Proof.
+  induction l as [|x l IH]; simpl; [split; [discriminate|contradiction]|].
+  rewrite orb_true_iff, IH, String.eqb_eq. split; intros [H|H]; auto.
+Qed.
+
+Definition dec (k : nat) : string := NilZero.string_of_uint (Nat.to_uint k).
+
+Lemma to_uint_nonnil k : Nat.to_uint k <> Decimal.Nil.
+Proof.
+  intro H. pose proof (Unsigned.of_to k) as E. rewrite H in E. simpl in E.
+  (* of_uint Nil = 0, so k = 0; but to_uint 0 = D0 Nil *)
+  subst k. discriminate H.
+Qed.
+
+Lemma dec_inj j k : dec j = dec k -> j = k.
+Proof.
+  unfold dec. intro H. apply (f_equal NilZero.uint_of_string) in H.
+  rewrite !NilZero.usu in H by apply to_uint_nonnil.
+  injection H as H. apply Unsigned.to_uint_inj. exact H.
+Qed.
+
+(* the candidates the loop tries: the name itself, then name-1, name-2, ... *)
+Definition cand (base : string) (k : nat) : string :=
+  match k with 0 => base | S _ => suffixed base k end.
+
+Lemma suffixed_neq_base base k : suffixed base k <> base.
+Proof.
+  unfold suffixed. intro H. apply (f_equal String.length) in H.
+  rewrite !append_length in H. simpl in H. lia.
+Qed.
+
+Lemma cand_inj base j k : cand base j = cand base k -> j = k.
+Proof.
+  destruct j as [|j], k as [|k]; simpl; intro H; try reflexivity.
+  - symmetry in H. destruct (suffixed_neq_base _ _ H).
+  - destruct (suffixed_neq_base _ _ H).
+  - unfold suffixed in H. apply append_inj_r in H. apply append_inj_r in H. apply dec_inj. exact H.
+Qed.
+
+(* ---------- the loop ---------- *)
+Lemma unique_from_some fuel existing base : forall j r,
+  unique_from fuel existing base (cand base j) (S j) = Some r ->
+  ~ In r existing /\ exists k, r = cand base k.
+Proof.
+  induction fuel as [|f IH]; intros j r H; simpl in H.
+  - destruct (mem_str (cand base j) existing) eqn:E; simpl in H; [discriminate|].
+    injection H as <-. split; [|eauto]. intro Hin. apply mem_str_in in Hin. congruence.
+  - destruct (mem_str (cand base j) existing) eqn:E; simpl in H.
+    + apply (IH (S j)). exact H.
+    + injection H as <-. split; [|eauto]. intro Hin. apply mem_str_in in Hin. congruence.
+Qed.
+
+Lemma unique_from_none fuel existing base : forall j,
+  unique_from fuel existing base (cand base j) (S j) = None ->
+  forall k, (j <= k <= j + fuel)%nat -> In (cand base k) existing.
+Proof.
+  induction fuel as [|f IH]; intros j H k Hk; simpl in H.
+  - destruct (mem_str (cand base j) existing) eqn:E; simpl in H; [|discriminate].
+    assert (k = j) by lia. subst. apply mem_str_in. exact E.
+  - destruct (mem_str (cand base j) existing) eqn:E; simpl in H; [|discriminate].
+    destruct (Nat.eq_dec k j) as [->|Hne]; [apply mem_str_in; exact E|].
+    apply (IH (S j) H). lia.
+Qed.
+
+(* termination within the fuel supplied: length existing + 1 distinct candidates cannot all be taken *)
+Theorem unique_name_total existing base : exists r, unique_name existing base = Some r.
+Proof.
+  unfold unique_name. destruct (unique_from _ _ _ _ _) as [r|] eqn:E; [eauto|]. exfalso.
+  change base with (cand base 0) in E at 2.
+  pose proof (unique_from_none _ _ _ _ E) as H.
+  set (cs := map (cand base) (seq 0 (S (length existing)))).
+  assert (ND : NoDup cs).
+  { subst cs. apply FinFun.Injective_map_NoDup; [intros a b; apply cand_inj|apply seq_NoDup]. }
+  assert (I : incl cs existing).
+  { intros x Hx. subst cs. apply in_map_iff in Hx as [k [<- Hk]]. apply in_seq in Hk. apply H. lia. }
+  pose proof (NoDup_incl_length ND I) as L. subst cs. rewrite map_length, seq_length in L. lia.
+Qed.
+
+Definition IsCand (n base : string) : Prop := exists k, n = cand base k.
+
+Theorem unique_name_fresh existing base r :
+  unique_name existing base = Some r -> ~ In r existing /\ IsCand r base.
+Proof. unfold unique_name. change base with (cand base 0) at 2. apply unique_from_some. Qed.
+
+Lemma NoDup_snoc {A} (l : list A) r : NoDup l -> ~ In r l -> NoDup (l ++ [r])%list.
+Proof.
+  induction 1 as [|x l Hx ND IH]; simpl; intro H0.
+  - constructor; [intros []|constructor].
+  - constructor.
+    + intro Hin. apply in_app_or in Hin as [Hin|[<-|[]]]; [contradiction|]. apply H0. left; reflexivity.
+    + apply IH. intro; apply H0; right; assumption.
+Qed.
+
+(* ---------- details ---------- *)
+(* ds answers the requests reqs one for one: same payload, a candidate of the requested name *)
+Definition answers (reqs ds : list detail) : Prop :=
+  Forall2 (fun req d => snd d = snd req /\ IsCand (fst d) (fst req)) reqs ds.
+Definition Inv (reqs ds : list detail) : Prop := answers reqs ds /\ NoDup (map fst ds).
+
+Lemma add_unique_inv reqs l d : Inv reqs l ->
+  exists l', add_unique (Some l) d = Some l' /\ Inv (reqs ++ [d]) l'.
+Proof.
+  intros [A ND]. unfold add_unique.
+  destruct (unique_name_total (map fst l) (fst d)) as [r E]. rewrite E.
+  destruct (unique_name_fresh _ _ _ E) as [F C].
+  exists (l ++ [(r, snd d)])%list. split; [reflexivity|]. split.
+  - apply Forall2_app; [exact A|]. constructor; [|constructor]. split; [reflexivity|exact C].
+  - rewrite map_app. simpl. apply NoDup_snoc; assumption.
+Qed.
